@@ -1060,6 +1060,16 @@ class Compiler:
                 self.scopes.pop()
                 return stmts
 
+            def visit_FunctionDef(self, node: ast.FunctionDef) -> ast.AST:
+                # A function (slot content) writes to the stream it is
+                # called with, also when it is defined inside a
+                # translation block.
+                self.scopes.append(TranslationContext())
+                try:
+                    return self.generic_visit(node)
+                finally:
+                    self.scopes.pop()
+
             def visit_TokenRef(self, node: TokenRef) -> ast.AST:
                 self.tokens.append((node.token.pos, len(node.token)))
                 assignment = ast.Assign(
@@ -1773,7 +1783,13 @@ class Compiler:
             # track and report the failing expression itself, or an
             # error would be attributed to whatever the macro evaluated
             # last.
-            body = template("__token = None") + self._record_error_site(
+            # It also has to write to the stream it is given (a macro
+            # may render a slot into the buffer of a translation block),
+            # not to the stream of the function that defines it.
+            body = template(
+                "__append = __stream.append\n"
+                "__token = None"
+            ) + self._record_error_site(
                 self.visit_Context(slot) or [ast.Pass()])
 
             assert self._current_slot.pop() == slot.name
